@@ -42,6 +42,7 @@ SCENARIOS["big_results"] = (False, 2, None, 1.0, 2, [(lambda: iter(range(6)), 1,
 SCENARIOS["factory_big_results"] = (True, 2, 2, 1.0, None, [(lambda: iter(range(6)), 1, True)])
 SCENARIOS["none_inputs"] = (False, 2, None, 1.0, None, [(lambda: iter([0, None, 2, None, None, 5, 0.0]), 2, True),
                                                         (lambda: iter([None]), 1, False)])
+SCENARIOS["exception_values"] = (False, 2, None, 1.0, None, [(lambda: iter(range(7)), 2, True), (lambda: iter(range(5)), 1, False)])
 BIG = 1 << 20
 
 
@@ -50,6 +51,9 @@ def fun(name, x):
         return (x, bytes([x % 251]) * BIG)
     if x is None:
         return None
+    if name == "exception_values":
+        # an exception instance returned (not raised) is a value like any other
+        return ("exc", "ValueError", x) if False else (ValueError("multiple of three", x) if x % 3 == 0 else x)
     return x * 2 + 1
 
 
@@ -89,6 +93,8 @@ def main(name):
             data = list(mk())
             exp = [fun(name, x) for x in data]
             got = list(pool.imap(mk(), chunk) if ordered else pool.imap_unordered(mk(), chunk))
+            cn = lambda v: (type(v).__name__, v.args) if isinstance(v, BaseException) else v
+            got, exp = [cn(v) for v in got], [cn(v) for v in exp]
             if (got != exp) if ordered else (sorted(got, key=repr) != sorted(exp, key=repr)):
                 print(f"WRONG {name}: got {got}, expected {exp}")
                 ok = False
